@@ -88,6 +88,8 @@ class ExprMixin:
                 return self.reg.consts[name]
             if name in self.reg.ufuncs:
                 return FuncVal('builtin', qual='ufunc.' + name)
+            if name in self.reg.ghostvars:
+                return self.ghost_value(name)
             if name in self.SPEC_BUILTINS:
                 return FuncVal('builtin', qual='spec.' + name)
         v = self.module_global(fr.module, name)
@@ -109,6 +111,13 @@ class ExprMixin:
 
     EXC_NAMES = {'Exception', 'KeyError', 'ValueError', 'OSError', 'IOError', 'TypeError', 'AssertionError',
                  'StopIteration', 'IndexError', 'AttributeError', 'RuntimeError', 'NotImplementedError'}
+
+    def ghost_value(self, name):
+        cache = self.__dict__.setdefault('_ghosts', {})
+        if name not in cache:
+            kind = self.reg.kind(self.reg.ghostvars[name])
+            cache[name] = SVal(kind, [z3.Const('G_%s_%d' % (name, i), s) for i, s in enumerate(kind.sorts())])
+        return cache[name]
 
     def module_global(self, mod, name):
         if mod is None:
@@ -183,7 +192,7 @@ class ExprMixin:
                     terms.append(z3.StringVal(v.value))
                 else:
                     terms.append(self.to_str(next(it)))
-            outs.append((s, SVal(KStr, [z3.Concat(*terms) if len(terms) > 1 else terms[0]])))
+            outs.append((s, SVal(KStr, [ops.str_concat(terms)])))
         return outs
 
     def ev_Lambda(self, e, st, fr):
@@ -357,9 +366,8 @@ class ExprMixin:
         if isinstance(k, KCounter):
             return ops.counter_get(cont, item).z != 0 if False else self.counter_contains(cont, item)
         if isinstance(k, KList):
-            j = z3.Int(fresh_name('j'))
             it = self.coerce_to(st, item, k.elem)
-            return z3.Exists([j], z3.And(j >= 0, j < cont.t[0], asz(equal(ops.list_get(cont, j), it))))
+            return self.list_member(cont, cont.t[0], it)
         if k == KStr:
             return z3.Contains(lift(cont).z, lift(item, KStr).z)
         if isinstance(k, KRef):
@@ -370,6 +378,22 @@ class ExprMixin:
                     return self.read_field(st, st.heap, cont.z, k.cls, 'has_' + item).z
                 return item in sc.fields
         raise CheckerError('`in` on %r' % (k,))
+
+    def list_member(self, lst, n, item):
+        """item in lst[:n] as a canonical recursive function Mem_kind(n, arrays.., item..)."""
+        k = lst.kind
+        key = ('mem', repr(k))
+        if key not in self.recfuncs:
+            sorts = [I] + [a.sort() for a in lst.t[1:]] + [t.sort() for t in item.t]
+            F = z3.RecFunction('Mem_' + ''.join(ch for ch in repr(k.elem) if ch.isalnum()), *(sorts + [B]))
+            x = z3.Int('$mx')
+            arrs = [z3.Const('$ma%d' % i, a.sort()) for i, a in enumerate(lst.t[1:])]
+            its = [z3.Const('$mi%d' % i, t.sort()) for i, t in enumerate(item.t)]
+            eq = z3.And(*[z3.Select(a, x - 1) == t for a, t in zip(arrs, its)])
+            z3.RecAddDefinition(F, [x] + arrs + its, z3.And(x > 0, z3.Or(eq, F(x - 1, *(arrs + its)))))
+            self.recfuncs[key] = F
+        F = self.recfuncs[key]
+        return F(n, *(list(lst.t[1:]) + list(item.t)))
 
     def counter_contains(self, c, item):
         raise CheckerError('`in` on Counter unsupported')
@@ -394,7 +418,7 @@ class ExprMixin:
         # opaque rendering (only ever used in messages)
         return z3.String(fresh_name('repr'))
 
-    _name_str = z3.Function('name_str', I, z3.StringSort())
+    _name_str = ops._name_str
 
     def name_str(self, z):
         return self._name_str(z)
@@ -430,7 +454,7 @@ class ExprMixin:
             parts.append(z3.StringVal(buf))
         if not parts:
             return ''
-        return SVal(KStr, [z3.Concat(*parts) if len(parts) > 1 else parts[0]])
+        return SVal(KStr, [ops.str_concat(parts)])
 
     # -------------------------------------------------------------- sets / lists
     def set_binop(self, st, op, a, b):
@@ -495,6 +519,8 @@ class ExprMixin:
                 if getattr(base.kind, 'nullable', False) and not fr.spec:
                     return self.partial(st, fr, base.z != 0, 'AttributeError', mk)
                 return [(st, mk(st))]
+            if ('lib:%s.%s' % (cname, attr)) in self.reg.contracts:
+                return [(st, FuncVal('builtin', qual='libmeth.%s.%s' % (cname, attr), selfv=base))]
             # bound library-like method on a record (dict API)
             sc = self.reg.classes.get(cname)
             if sc is not None and sc.record:
@@ -619,9 +645,9 @@ class ExprMixin:
             def mk(s, i=i):
                 v = ops.list_get(base, i)
                 if not fr.spec:
-                    s.assume(*self.type_facts(v, k.elem, s))
+                    self.tf_assume(s, self.type_facts(v, k.elem, s))
                 else:
-                    s.assume(*[z3.Implies(ok, f) for f in self.type_facts(v, k.elem, s)])
+                    self.tf_assume(s, [z3.Implies(ok, f) for f in self.type_facts(v, k.elem, s)])
                 return v
             return self.partial(st, fr, ok, 'IndexError', mk)
         if isinstance(k, KDict):
@@ -629,9 +655,9 @@ class ExprMixin:
             def mk(s):
                 v = ops.dict_get(base, idx)
                 if not fr.spec:
-                    s.assume(*self.type_facts(v, k.val, s))
+                    self.tf_assume(s, self.type_facts(v, k.val, s))
                 else:
-                    s.assume(*[z3.Implies(ok, f) for f in self.type_facts(v, k.val, s)])
+                    self.tf_assume(s, [z3.Implies(ok, f) for f in self.type_facts(v, k.val, s)])
                 return v
             return self.partial(st, fr, ok, 'KeyError', mk)
         if isinstance(k, KCounter):
